@@ -83,17 +83,82 @@ def ao_conformance(run, prop, n, kinds=("random", "pct", "random", "guided"), ca
   return results
 
 
+SYS_INV = ["Bounded", "InOrder", "DispatchIsPop", "AtMostOnce", "QuietUnlessRunning"]
+SYS_PROP = ["NoStepAfterStop", "NothingAfterStop", "EventuallyDispatched", "Drained"]
+
+
+def system_model_check(run, tier):
+  """TLC on the whole-system design (System.tla / SystemMC.tla): two objects, a driver posting at both ends, both delivery
+  threads (one object holds both kinds of subscription), timed posts, stop(); safety and liveness under weak fairness"""
+  posts, pubs, fires, cap = (1, 1, 0, 2) if tier == "quick" else (2, 1, 1, 3)
+  cfg = ("SPECIFICATION MCSpec\nCONSTANTS AOs = {\"a1\", \"a2\"}\nCap = %d\nMaxPosts = %d\nMaxPubs = %d\nMaxFires = %d\n" % (cap, posts, pubs, fires)
+         + "".join("INVARIANT %s\n" % i for i in SYS_INV) + "".join("PROPERTY %s\n" % p for p in SYS_PROP) + "CHECK_DEADLOCK FALSE\n")
+  r = tlc.run("SystemMC.tla", cfg, 8, None, (), 6000)
+  tlc.need_ok(r, "SystemMC")
+  if r.violated:
+    raise common.MachineryError("SystemMC.tla violates %s: the design of System.tla is wrong" % r.violated)
+  run.add(states=r.distinct, transitions=r.generated)
+  run.add(tlc_runs=["SystemMC cap=%d posts=%d publications=%d timed posts=%d: %d distinct states; %s and (weak fairness) %s hold" % (
+    cap, posts, pubs, fires, r.distinct, ",".join(SYS_INV), ",".join(SYS_PROP))])
+
+
+def _sys_work(args):
+  import random as _r
+  from harness import sysdrive
+  from checks import pubsub, timers
+  seed, lo, hi = args
+  out = []
+  for tid in range(lo, hi):
+    rng = _r.Random((seed << 23) ^ (tid * 2654435761 % (1 << 32)))
+    cfg = pubsub.gen(rng) if tid % 2 else timers.gen(rng, timers.PROFILE[rng.choice(["C10", "C11", "C12"])])
+    cfg["cap"] = rng.choice([3, 4, 30])          # small capacities: the overflow regime is part of C04 / C16
+    pol = dsched.RandomPolicy(rng, stick=rng.choice([0.0, 0.5, 0.8])) if tid % 4 < 2 else dsched.PCTPolicy(rng, 3, 150)
+    pol.time_limit = timers.H
+    if rng.random() < 0.3:
+      pol = dsched.StallPolicy(pol, rng, p=rng.choice([0.02, 0.05]), durations=(1, 2, 3), max_stalls=rng.randint(1, 3))
+    r = sysdrive.run_one(cfg, dsched.FairSuffix(pol, 2500, time_limit=timers.H), 5000)
+    r["cfg"] = cfg
+    out.append((tid, r))
+  return out
+
+
+def system_conformance(run, prop, n):
+  """whole-system executions (several objects, fabric, timed sources, stop) validated against System.tla: the events that reach
+  an object's queue from timed sources and from the fabric are dispatched exactly as often as they were queued, in queue order"""
+  import multiprocessing as mp
+  from harness import syscheck
+  chunk = max(1, (n + 63) // 64)
+  with mp.get_context("fork").Pool(16) as pool:
+    results = [x for part in pool.map(_sys_work, [(common.seed(), lo, min(n, lo + chunk)) for lo in range(0, n, chunk)]) for x in part]
+  states = 0
+  others = {}
+  for cap in sorted({r["cfg"]["cap"] for _, r in results}):
+    part = [(tid, r) for tid, r in results if r["cfg"]["cap"] == cap]
+    v, t = syscheck.validate(part, cap, lenient_done=True)
+    states += t.distinct
+    for p2, k in syscheck.file_violations(run, prop, part, v, extra_props=("C16",) if prop == "C04" else ()).items():
+      others[p2] = others.get(p2, 0) + k
+    run.add(system_level_dispatches=sum(sum(x.get("dispatched", {}).values()) for x in v.values()))
+  run.add(system_executions_validated=len(results), system_level_states=states)
+  run.add(system_trace_binding_demo=syscheck.binding_demo([x for x in results if x[1]["cfg"]["cap"] == 30], 30, lenient_done=True))
+  if others:
+    run.add(system_rejections_attributed_to_other_properties=others)
+
+
 def c04(tier):
   run = common.Run("C04", tier, "model_checking")
   run.assumptions += ASSUME_B + ["order / exactly-once are demanded only of executions in which the pending-event queue never reached "
                                  "its capacity (C04's overflow clause); at-most-once, no-lost-wake-up and boundedness always"]
   configs = [(2, "ProgFL"), (5, "ProgF")] if tier == "quick" else [(2, "ProgFF"), (2, "ProgFL"), (3, "ProgFL"), (5, "ProgFF")]
-  with cf.ThreadPoolExecutor(2) as ex:
+  with cf.ThreadPoolExecutor(3) as ex:
     f = ex.submit(ld_model_check, run, configs)
     f2 = ex.submit(ld_fidelity, run, 24 if tier == "quick" else 200)
+    f3 = ex.submit(system_model_check, run, tier)
     ao_conformance(run, "C04", 1600 if tier == "quick" else 40000)
+    system_conformance(run, "C04", 600 if tier == "quick" else 12000)
     f.result()
     f2.result()
+    f3.result()
   return run.finish()
 
 
